@@ -68,6 +68,26 @@ var (
 	}
 )
 
+// functionArity is the number of operands each function takes
+var functionArity = map[string]int{
+	"attribute_exists":     1,
+	"attribute_not_exists": 1,
+	"attribute_type":       2,
+	"begins_with":          2,
+	"contains":             2,
+	"size":                 1,
+	"if_not_exists":        2,
+	"list_append":          2,
+}
+
+func checkFunctionArity(fn *Function, args []Object) Object {
+	if arity, ok := functionArity[fn.Name]; ok && len(args) != arity {
+		return newError("incorrect number of operands for function %s; expected %d, got %d", fn.Name, arity, len(args))
+	}
+
+	return nil
+}
+
 func attributeExists(args ...Object) Object {
 	path := args[0]
 
